@@ -189,7 +189,7 @@ class EmuTag(simtags.TagSim):
             self.exc = e
             return None
         if iswrite and rsp is not None and bytes(rsp[10:12]) == b"\x00\x00":
-            self.writes += 1
+            self._wrote()
         return None if rsp is None else bytes(rsp)
 
 
